@@ -203,7 +203,35 @@ func TestVerifC04(t *testing.T) {
 func TestVerifC05(t *testing.T) {
 	hdRunProperty(t, hdProp{id: "C05", quick: 110, thorough: 1100, minOps: 20,
 		opts: func(i int) hdGenOpts { return hdGenOpts{api: i%2 == 0, internal: i%3 == 0, messages: true} },
-		nontrivial: func(c *hdCase, tr string) bool { return strings.Count(tr, "SMsg") >= 2 }})
+		nontrivial: func(c *hdCase, tr string) bool { return strings.Count(tr, "SMsg") >= 2 },
+		directed: func() []*hdCase {
+			// every recipient type after the state it depends on changed: left the call, left the room, came back,
+			// second session of the same user, other tenant with the same room and user ids
+			all := func(c, tag int) []hdOp {
+				return []hdOp{{K: "msg", C: c, To: &hdRecipient{T: "call"}, Tag: tag}, {K: "ctl", C: c, To: &hdRecipient{T: "call"}, Tag: tag + 1},
+					{K: "msg", C: c, To: &hdRecipient{T: "room"}, Tag: tag + 2}, {K: "ctl", C: c, To: &hdRecipient{T: "room"}, Tag: tag + 3},
+					{K: "msg", C: c, To: &hdRecipient{T: "user", U: 2}, Tag: tag + 4}, {K: "msg", C: c, To: hdToSession(2), Tag: tag + 5},
+					{K: "ctl", C: c, To: hdToSession(4), Tag: tag + 6}}
+			}
+			ops := []hdOp{{K: "connect", C: 1}, {K: "connect", C: 2}, {K: "connect", C: 3}, {K: "connect", C: 4},
+				{K: "hello", C: 1, B: 0, U: 1}, {K: "hello", C: 2, B: 0, U: 2}, {K: "hello", C: 3, B: 0, U: 2}, {K: "hello", C: 4, B: 1, U: 2},
+				hdJoinOp(1, 1, 1), hdJoinOp(2, 1, 2), hdJoinOp(3, 1, 3), hdJoinOp(4, 1, 4)}
+			ops = append(ops, all(1, 100)...)
+			ops = append(ops, hdOp{K: "api", B: 0, SignAs: 0, R: 1, Api: "incall", RawRS: true, Users: []hdApiUser{{RS: 1, InCall: 1}, {RS: 2, InCall: 1}, {RS: 3, InCall: 3}}})
+			ops = append(ops, all(1, 200)...)
+			ops = append(ops, hdOp{K: "api", B: 0, SignAs: 0, R: 1, Api: "incall", RawRS: true, Users: []hdApiUser{{RS: 2, InCall: 0}}}) // 2 leaves the call, stays in the room
+			ops = append(ops, all(1, 300)...)
+			ops = append(ops, all(3, 350)...)
+			ops = append(ops, hdJoinOp(3, 2, 3)) // 3 switches to another room
+			ops = append(ops, all(1, 400)...)
+			ops = append(ops, hdJoinOp(3, 1, 3)) // and comes back: not in the call until the backend says so
+			ops = append(ops, all(1, 500)...)
+			ops = append(ops, hdOp{K: "api", B: 0, SignAs: 0, R: 1, Api: "incallall", InCall: 0})
+			ops = append(ops, all(1, 600)...)
+			ops = append(ops, hdJoinOp(2, 0, 0)) // 2 leaves the room
+			ops = append(ops, all(1, 700)...)
+			return []*hdCase{{Id: 0, Mode: 1, Ops: ops}}
+		}})
 }
 
 // ---- C06 ----
@@ -258,7 +286,35 @@ func TestVerifC06(t *testing.T) {
 func TestVerifC07(t *testing.T) {
 	hdRunProperty(t, hdProp{id: "C07", quick: 110, thorough: 1100, minOps: 20,
 		opts: func(i int) hdGenOpts { return hdGenOpts{api: true, internal: i%2 == 0, media: i%4 == 0, limits: true, endings: true} },
-		nontrivial: func(c *hdCase, tr string) bool { return hdHas(tr, "OBye") || hdHas(tr, "OTick 40") || hdHas(tr, "SBye") }})
+		nontrivial: func(c *hdCase, tr string) bool { return hdHas(tr, "OBye") || hdHas(tr, "OTick 40") || hdHas(tr, "SBye") },
+		directed: func() []*hdCase {
+			base := []hdOp{{K: "connect", C: 1}, {K: "connect", C: 2}, {K: "connect", C: 3},
+				{K: "hello", C: 1, B: 0, U: 1}, {K: "hello", C: 2, B: 0, U: 2}, {K: "hello", C: 3, Ht: "internal", B: 0},
+				hdJoinOp(1, 1, 5), hdJoinOp(2, 1, 6), hdJoinOp(3, 1, 0)}
+			// the Nextcloud session id of one member is taken over by another member of the same room (no kick on
+			// that path), by an internal client (never kicks), then the first holder ends in each possible way
+			take := func(end ...hdOp) []hdOp {
+				ops := append(append([]hdOp{}, base...), hdJoinOp(2, 1, 5))
+				return append(ops, end...)
+			}
+			takeInt := func(end ...hdOp) []hdOp {
+				ops := append(append([]hdOp{}, base...), hdJoinOp(3, 1, 5))
+				return append(ops, end...)
+			}
+			tail := []hdOp{hdJoinOp(2, 2, 5), {K: "bye", C: 2}, {K: "bye", C: 3}, {K: "tick", O: 40}}
+			var out []*hdCase
+			for i, ops := range [][]hdOp{
+				take(append([]hdOp{{K: "bye", C: 1}}, tail...)...),
+				take(append([]hdOp{{K: "drop", C: 1}, {K: "tick", O: 40}}, tail...)...),
+				take(append([]hdOp{hdJoinOp(1, 0, 0), hdJoinOp(1, 1, 5)}, tail...)...),
+				take(append([]hdOp{{K: "api", B: 0, SignAs: 0, R: 1, Api: "delete"}}, tail...)...),
+				takeInt(append([]hdOp{{K: "bye", C: 1}}, tail...)...),
+				takeInt(append([]hdOp{{K: "bye", C: 3}, {K: "bye", C: 1}}, tail...)...),
+			} {
+				out = append(out, &hdCase{Id: i, Mode: 1, Ops: ops})
+			}
+			return out
+		}})
 }
 
 // ---- C08 ----
